@@ -2867,7 +2867,7 @@ func parseLineNames(arg Token) []string {
 		for _, token := range arg.Arguments {
 			if ident, ok := token.(pa.Ident); ok {
 				names = append(names, ident.Value)
-			} else if _, ok := token.(pa.Whitespace); ok {
+			} else if k := token.Kind(); k == pa.KWhitespace || k == pa.KComment {
 				continue
 			} else {
 				return nil
